@@ -1,6 +1,7 @@
 package main
 
 import (
+	"encoding/json"
 	"fmt"
 	"os"
 	"os/exec"
@@ -92,9 +93,30 @@ func selftestMutants(filter string, budget time.Duration) int {
 		}
 	}
 	var names []string
+	paths := map[string]string{}
 	for _, e := range ents {
 		if strings.HasSuffix(e.Name(), ".diff") && strings.Contains(e.Name(), filter) {
 			names = append(names, e.Name())
+			paths[e.Name()] = filepath.Join(dir, e.Name())
+		}
+	}
+	// seeded changes from independent sub-agents: seeded/<id>/patch.diff, property in meta.json
+	sdir := filepath.Join(verifDir, "seeded")
+	if sents, err := os.ReadDir(sdir); err == nil {
+		for _, e := range sents {
+			var meta struct {
+				Property string `json:"property"`
+			}
+			mb, err := os.ReadFile(filepath.Join(sdir, e.Name(), "meta.json"))
+			if err != nil || json.Unmarshal(mb, &meta) != nil || meta.Property == "" {
+				continue
+			}
+			name := "seeded/" + e.Name()
+			if strings.Contains(name, filter) {
+				names = append(names, name)
+				paths[name] = filepath.Join(sdir, e.Name(), "patch.diff")
+				expect[name] = []string{meta.Property}
+			}
 		}
 	}
 	sort.Strings(names)
@@ -109,7 +131,7 @@ func selftestMutants(filter string, budget time.Duration) int {
 			fmt.Printf("%-48s no expectation recorded, skipped\n", name)
 			continue
 		}
-		if out, err := exec.Command("git", "-C", repoDir, "apply", filepath.Join(dir, name)).CombinedOutput(); err != nil {
+		if out, err := exec.Command("git", "-C", repoDir, "apply", paths[name]).CombinedOutput(); err != nil {
 			fmt.Printf("%-48s does not apply: %s\n", name, strings.TrimSpace(string(out)))
 			missed++
 			continue
